@@ -265,6 +265,15 @@ def run_check(pid, tier, seed):
             stats["op_kinds"][op["op"]] = stats["op_kinds"].get(op["op"], 0) + 1
             if "err" in r:
                 stats["errors_seen"][r["err"]] = stats["errors_seen"].get(r["err"], 0) + 1
+            elif op["op"] == "heap.summary":
+                hp = stats.setdefault("extra", {}).setdefault("reference_level_observations",
+                                                             {"summaries": 0, "objects_walked": 0, "pairs_sharing_frozen_cells": 0,
+                                                              "pairs_sharing_mutable_containers": 0, "objects_changed": 0})
+                hp["summaries"] += 1
+                hp["objects_walked"] += len(op.get("vars", []))
+                hp["pairs_sharing_frozen_cells"] += sum(1 for x in r["ok"]["shared"] if x[3] or x[4])
+                hp["pairs_sharing_mutable_containers"] += sum(1 for x in r["ok"]["shared"] if x[2])
+                hp["objects_changed"] += len(r["ok"]["changed"])
         nontriv = getattr(prop, "nontrivial", lambda ops, ri: len(ops) >= 3 and any("ok" in r for r in ri))(ops, ri)
         if new and nontriv:
             stats["nontrivial"] += 1
